@@ -81,6 +81,8 @@ pub enum Cert {
     OtherName,
     RogueCa,
     IpOnly,
+    /// subject CN = the good name, SAN = another name only
+    CnOnly,
 }
 
 #[derive(Serialize, Deserialize, Clone, Debug, PartialEq)]
@@ -150,7 +152,7 @@ pub fn gen(rng: &mut Rng) -> CConfig {
         local_addr: rng.chance(1, 5),
         via_factory: rng.chance(1, 3),
         openssl: rng.chance(1, 2),
-        cert: rng.pick(&[Cert::Good, Cert::Good, Cert::OtherName, Cert::RogueCa, Cert::IpOnly]).clone(),
+        cert: rng.pick(&[Cert::Good, Cert::Good, Cert::OtherName, Cert::RogueCa, Cert::IpOnly, Cert::CnOnly]).clone(),
         tls_host: rng.pick(&[TlsHost::Good, TlsHost::Good, TlsHost::GoodWithPort, TlsHost::Other, TlsHost::Invalid, TlsHost::Ip]).clone(),
         tls12: rng.chance(1, 3),
         prior_session: rng.chance(1, 3),
@@ -673,6 +675,7 @@ fn run_tls_openssl_peer(cfg: &CConfig, ctx: &mut RunCtx) -> Option<Violation> {
         Cert::OtherName => (&pk.other_der, &pk.other_key_der),
         Cert::RogueCa => (&pk.rogue_der, &pk.rogue_key_der),
         Cert::IpOnly => (&pk.ip_der, &pk.ip_key_der),
+        Cert::CnOnly => (&pk.cn_der, &pk.cn_key_der),
     };
     let mut sb = SslAcceptor::mozilla_intermediate_v5(SslMethod::tls()).unwrap();
     sb.set_private_key(&PKey::private_key_from_der(key).unwrap()).unwrap();
@@ -752,7 +755,7 @@ fn run_tls_openssl_peer(cfg: &CConfig, ctx: &mut RunCtx) -> Option<Violation> {
     };
     let valid = matches!(
         (&cfg.cert, &cfg.tls_host),
-        (Cert::Good, TlsHost::Good | TlsHost::GoodWithPort) | (Cert::OtherName, TlsHost::Other) | (Cert::IpOnly, TlsHost::Ip)
+        (Cert::Good, TlsHost::Good | TlsHost::GoodWithPort) | (Cert::OtherName | Cert::CnOnly, TlsHost::Other) | (Cert::IpOnly, TlsHost::Ip)
     );
     if cfg.prior_session && cfg.cert == Cert::Good {
         if one(GOOD_NAME) != Some(true) {
@@ -772,6 +775,9 @@ fn run_tls_openssl_peer(cfg: &CConfig, ctx: &mut RunCtx) -> Option<Violation> {
         }
         (false, false) => {
             ctx.bump("probe.tls_rejected");
+            if cfg.cert == Cert::CnOnly && matches!(cfg.tls_host, TlsHost::Good | TlsHost::GoodWithPort) {
+                ctx.bump("probe.cn_matches_but_san_does_not");
+            }
             None
         }
         (false, true) => Some(
@@ -800,6 +806,7 @@ async fn run_tls(cfg: &CConfig, ch: &mut Chooser<Action>, ctx: &mut RunCtx) -> O
         Cert::OtherName => (&pk.other_der, &pk.other_key_der),
         Cert::RogueCa => (&pk.rogue_der, &pk.rogue_key_der),
         Cert::IpOnly => (&pk.ip_der, &pk.ip_key_der),
+        Cert::CnOnly => (&pk.cn_der, &pk.cn_key_der),
     };
     let scfg = Arc::new(server_config(cert, key));
     let mut server = rustls::ServerConnection::new(scfg.clone()).unwrap();
@@ -814,7 +821,7 @@ async fn run_tls(cfg: &CConfig, ch: &mut Chooser<Action>, ctx: &mut RunCtx) -> O
     // the certificate is valid for the request's hostname under the configured roots
     let valid = match (&cfg.cert, &cfg.tls_host) {
         (Cert::Good, TlsHost::Good | TlsHost::GoodWithPort) => true,
-        (Cert::OtherName, TlsHost::Other) => true,
+        (Cert::OtherName | Cert::CnOnly, TlsHost::Other) => true,
         (Cert::IpOnly, TlsHost::Ip) => true,
         _ => false,
     };
@@ -1065,7 +1072,7 @@ fn crate_payload(seed: u64, len: usize, salt: u64) -> Vec<u8> {
 
 pub fn describe() -> Describe {
     Describe {
-        rule: "TCP part: address lists of length 0..4 whose entries are independently a live loopback listener or a reserved closed port (IPv4 and IPv6), host strings with/without port, IP literals, non-numeric port text, pre-set One/Multi addresses or with_addr, set_port (equal to or different from the port in the host string: the host's port wins), the numeric order of the slots' ports follows a seeded rank (so that the dial order of a list is never accidentally its sorted order), optional local bind address, default resolver (localhost) or scripted resolver returning list / empty / error after 0..2 Pending polls, entered through Connector, TcpConnector alone or Resolver alone, each obtained by `.service()` or through its ServiceFactory (also the TLS connectors); when all addresses fail the error is that of the last one in dial order; outcome, dialled address, accept counters of every listener and the resolver call log are compared with a precedence model. TLS part: rustls 0.23 and OpenSSL connector services (optionally after an earlier, cleanly closed session for the good name on the same service and server: session caches must not carry a verification over to another name) over the in-memory duplex against a hand-driven rustls server (in a quarter of the TLS runs against the OpenSSL acceptor of actix-tls, both ends polled in lock-step: that peer resumes sessions whatever the name asked for) holding a certificate that covers / does not cover the requested host, is issued by an untrusted CA or lists only an IP, for host strings incl. host:port, another name, an invalid name and an IP literal; seeded delivery chunking; payload round trip after success. non-trivial = every run; distinct = distinct event-trace hash".into(),
+        rule: "TCP part: address lists of length 0..4 whose entries are independently a live loopback listener or a reserved closed port (IPv4 and IPv6), host strings with/without port, IP literals, non-numeric port text, pre-set One/Multi addresses or with_addr, set_port (equal to or different from the port in the host string: the host's port wins), the numeric order of the slots' ports follows a seeded rank (so that the dial order of a list is never accidentally its sorted order), optional local bind address, default resolver (localhost) or scripted resolver returning list / empty / error after 0..2 Pending polls, entered through Connector, TcpConnector alone or Resolver alone, each obtained by `.service()` or through its ServiceFactory (also the TLS connectors); when all addresses fail the error is that of the last one in dial order; outcome, dialled address, accept counters of every listener and the resolver call log are compared with a precedence model. TLS part: rustls 0.23 and OpenSSL connector services (optionally after an earlier, cleanly closed session for the good name on the same service and server: session caches must not carry a verification over to another name) over the in-memory duplex against a hand-driven rustls server (in a quarter of the TLS runs against the OpenSSL acceptor of actix-tls, both ends polled in lock-step: that peer resumes sessions whatever the name asked for) holding a certificate that covers / does not cover the requested host, is issued by an untrusted CA, lists only an IP, or carries the requested name in its subject CN but not in its SAN, for host strings incl. host:port, another name, an invalid name and an IP literal; seeded delivery chunking; payload round trip after success. non-trivial = every run; distinct = distinct event-trace hash".into(),
         real: vec!["actix_tls::connect::{Connector, ConnectorService, Resolver, ResolverService, TcpConnector, TcpConnectorService, ConnectInfo, Connection, Host}", "actix_tls::connect::{rustls_0_23, openssl}::TlsConnectorService", "kernel loopback TCP, tokio I/O driver", "rustls 0.23 / OpenSSL certificate verification"],
         stub: vec!["DNS: scripted Resolve implementation (default resolver only for localhost)", "TLS server: hand-driven rustls::ServerConnection", "wire for the TLS part: in-memory duplex"],
         assumptions: vec!["connect timing (slow SYN, half-open) cannot be simulated on kernel loopback and is not part of C19", "rustls 0.20-0.22 and native-tls connectors are not exercised"],
@@ -1073,5 +1080,5 @@ pub fn describe() -> Describe {
 }
 
 pub fn required_probes() -> Vec<&'static str> {
-    vec!["probe.connected", "probe.fallback_to_later_address", "probe.no_records", "probe.resolver_error", "probe.unresolved", "probe.all_refused", "probe.resolver_consulted", "probe.tls_connected", "probe.tls_rejected", "probe.tls_payload_roundtrip", "probe.host_port_beats_set_port", "probe.unsorted_list_with_two_live", "probe.service_from_factory", "probe.all_fail_with_different_errors", "probe.prior_session_on_same_service", "probe.prior_session_against_openssl_peer"]
+    vec!["probe.connected", "probe.fallback_to_later_address", "probe.no_records", "probe.resolver_error", "probe.unresolved", "probe.all_refused", "probe.resolver_consulted", "probe.tls_connected", "probe.tls_rejected", "probe.tls_payload_roundtrip", "probe.host_port_beats_set_port", "probe.unsorted_list_with_two_live", "probe.service_from_factory", "probe.all_fail_with_different_errors", "probe.prior_session_on_same_service", "probe.prior_session_against_openssl_peer", "probe.cn_matches_but_san_does_not"]
 }
